@@ -8,6 +8,9 @@ import (
 // files derives the file set from the description: page.vuego and one file per component.
 func files(c Case) map[string]string {
 	out := map[string]string{"page.vuego": emit(c.Page, c.Compact)}
+	if len(c.Layout) > 0 {
+		out["layouts/base.vuego"] = emit(c.Layout, c.Compact)
+	}
 	for name, cp := range c.Comps {
 		var b strings.Builder
 		if len(cp.FM) > 0 {
@@ -17,7 +20,15 @@ func files(c Case) map[string]string {
 			}
 			b.WriteString("---\n")
 		}
-		b.WriteString(emit(cp.Nodes, c.Compact))
+		if cp.Wrap {
+			b.WriteString("<template>" + emit(cp.Nodes, c.Compact))
+			if !c.Compact {
+				b.WriteString("\n")
+			}
+			b.WriteString("</template>\n")
+		} else {
+			b.WriteString(emit(cp.Nodes, c.Compact))
+		}
 		out[name] = b.String()
 	}
 	return out
@@ -84,6 +95,9 @@ func (w *writer) node(n Node, depth int) {
 			w.nl(depth)
 		}
 		fmt.Fprintf(w.b, "</%s>", n.Tag)
+	case "content":
+		w.nl(depth)
+		fmt.Fprintf(w.b, `<%s data-m="%s" v-html="content"></%s>`, n.Tag, n.M, n.Tag)
 	case "slot":
 		w.nl(depth)
 		w.b.WriteString("<slot")
